@@ -207,7 +207,8 @@ func classifyEmit(c *ssa.Call, in0 ssa.Value) *Emit {
 				e.N = map[string]int{"appendUint16": 2, "appendUint32": 4, "appendUint64": 8}[f.Name()]
 				e.Srcs = []ssa.Value{c.Call.Args[1]}
 				return e
-			case "appendMapBool":
+			}
+			if isBoolEmitHelper(f) {
 				e.Kind = "bool"
 				e.N = 1
 				e.Srcs = []ssa.Value{c.Call.Args[1]}
@@ -376,6 +377,21 @@ func strideOK(off ssa.Value, sizePath string) (bool, string) {
 	if path(off) == sizePath {
 		return true, "advances by " + sizePath
 	}
+	// running offset: off = phi(0, off + Size)
+	if p, ok := off.(*ssa.Phi); ok {
+		z, inc := false, false
+		for _, ed := range p.Edges {
+			if c, ok := constInt(ed); ok && c == 0 {
+				z = true
+			}
+			if a, ok := ed.(*ssa.BinOp); ok && a.Op == token.ADD && (a.X == ssa.Value(p) && path(stripConv(a.Y)) == sizePath || a.Y == ssa.Value(p) && path(stripConv(a.X)) == sizePath) {
+				inc = true
+			}
+		}
+		if z && inc {
+			return true, "base + running offset advanced by " + sizePath
+		}
+	}
 	if bo, ok := off.(*ssa.BinOp); ok && bo.Op == token.MUL {
 		if path(stripConv(bo.Y)) == sizePath && loopCounter(bo.X) || path(stripConv(bo.X)) == sizePath && loopCounter(bo.Y) {
 			return true, "base + index*" + sizePath
@@ -407,4 +423,42 @@ func isDispatchHelper(fn *ssa.Function) bool {
 		}
 	}
 	return true
+}
+
+var boolHelperMemo = map[*ssa.Function]int{}
+
+// isBoolEmitHelper: f(b []byte, v bool) []byte appends exactly one byte: 1 when v, 0 otherwise.
+func isBoolEmitHelper(f *ssa.Function) bool {
+	if f == nil || f.Blocks == nil || len(f.Params) != 2 || !isByteSlice(f.Params[0].Type()) {
+		return false
+	}
+	if bt, ok := f.Params[1].Type().Underlying().(*types.Basic); !ok || bt.Kind() != types.Bool {
+		return false
+	}
+	if v, ok := boolHelperMemo[f]; ok {
+		return v == 1
+	}
+	boolHelperMemo[f] = 0
+	ei := analyseEmits(f)
+	good := len(ei.events) > 0 && len(ei.foreign) == 0
+	for _, ev := range ei.events {
+		if ev.Kind != "bytes" || ev.N != 1 {
+			good = false
+			continue
+		}
+		val, ok := constInt(ev.Srcs[0])
+		truth, found := false, false
+		for _, cd := range domConds(ev.Instr.Block()) {
+			if cd.V == ssa.Value(f.Params[1]) {
+				truth, found = cd.Truth, true
+			}
+		}
+		if !ok || !found || (truth && val != 1) || (!truth && val != 0) {
+			good = false
+		}
+	}
+	if good {
+		boolHelperMemo[f] = 1
+	}
+	return good
 }
